@@ -225,6 +225,30 @@ def run(tier):
             text = "".join(c + sp for c, sp in zip(comps_, combo))
             n_sys += 1
             do("system", text, g.System, gen=False)
+    # the same system text parsed again in the same process - with another supplied system mass in between: every parse denotes the same object,
+    # and a parsed object does not change when another one is made
+    for T_ in ("CCO.|25%|CC{[$][$]CC[$][$]}|gauss(60, 5)|CO.|75%|", "CCCO.|40%|CC(C)O.|60%|"):
+        n_sys += 1
+        try:
+            first_ = g.System(T_)
+            a_ = str(first_)
+            with_ = g.System(T_, 2000.0)
+            b_ = str(with_)
+            again_ = g.System(T_)
+            c_ = str(again_)
+        except Exception as exc:
+            v.violation("C01:system:parsed-again-rejected", f"System({T_!r}) parsed with and without a supplied mass in one process: {type(exc).__name__}: {str(exc)[:100]}", {"text": T_})
+            continue
+        if c_ != a_ or again_.generable != first_.generable:
+            v.violation("C01:system:canonical-string-depends-on-earlier-systems", f"System({T_!r}) prints {a_!r} (generable={first_.generable}); parsed again after System(text, 2000.0) it prints {c_!r} "
+                                                                                 f"(generable={again_.generable})", {"text": T_})
+        if str(first_) != a_ or str(with_) != b_:
+            v.violation("C01:system:parsed-object-changed-by-a-later-parse", f"System({T_!r}): an object printed {a_!r} / {b_!r} and prints {str(first_)!r} / {str(with_)!r} after later parses of the same text",
+                        {"text": T_})
+        try:
+            g.System(T_, 4000.0)
+        except Exception as exc:
+            v.violation("C01:system:parsed-again-rejected", f"System({T_!r}, 4000.0) after System(text, 2000.0): {type(exc).__name__}: {str(exc)[:100]}", {"text": T_})
     # distributions whose written parameters are not what the object keeps (uniform truncates to integers): the canonical string has to
     # denote the law the parsed object draws from
     from .gast import M as M_, S as S_
